@@ -187,22 +187,26 @@ Fixpoint index_length_prefixed (i : N) (xs : list bytes) : bytes :=
 Definition rf_rep_input (crs aall : bytes) (i : N) (e z : bytes) : bytes :=
   index_length_prefixed 0 [crs; aall; le64 i; e; z].
 
-Fixpoint rf_reps (H : bytes -> bytes) (crs aall : bytes) (i : N)
+Fixpoint rf_reps (H : bytes -> bytes) (len : nat) (crs aall : bytes) (i : N)
          (reps : list (bytes * bytes * bytes)) (sv : N -> bytes -> bool) : bool :=
   match reps with
   | [] => true
   | (a, e, z) :: rest =>
+      Nat.eqb (length e) len &&
       forallb (fun x => N.eqb x 0) (firstn rf_LBytes (H (rf_rep_input crs aall i e z))) &&
       sv i e &&
-      rf_reps H crs aall (i + 1) rest sv
+      rf_reps H len crs aall (i + 1) rest sv
   end.
 
+(* Verifier.Verify: R repetitions, every challenge of exactly the sigma protocol's challenge
+   length (the guard added by the fix for finding randfischlin-challenge-leading-zeros),
+   hash target, sigma verdict *)
 Definition randfischlin_accept (xof : xof_call -> bytes) (H : bytes -> bytes) (c : context)
-           (pname : bytes) (reps : list (bytes * bytes * bytes)) (sv : N -> bytes -> bool) : bool :=
+           (pname : bytes) (len : nat) (reps : list (bytes * bytes * bytes)) (sv : N -> bytes -> bool) : bool :=
   N.eqb (N.of_nat (length reps)) rf_R &&
   match rf_crs_call c pname with
   | None => false
   | Some call =>
       let crs := xof call in
-      rf_reps H crs (flat_map (fun r => fst (fst r)) reps) 0 reps sv
+      rf_reps H len crs (flat_map (fun r => fst (fst r)) reps) 0 reps sv
   end.
